@@ -185,7 +185,7 @@ theorem safe_keyTok {s : List Char} (h : isSafeStr s = true) : KeyTok s s := by
   obtain ⟨c, cs, e, hc, _, _⟩ := safe_cons h
   have htc : isTokChar c = true := alnum_tok (alpha_alnum hc)
   refine ⟨fun after ha => implicitKey_key h after ha, fun after => classify_key h after, ⟨c, cs, e, ?_⟩,
-    fun x hx => tok_lineChar (alnum_tok (safe_chars h x hx)), ?_⟩
+    fun x hx => tok_lineChar (alnum_tok (safe_chars h x hx)), ?_, safe_scalarTok h⟩
   · have hne : ∀ x : Char, isTokChar x = false → c ≠ x := fun x hx => isTokChar_ne htc x hx
     simp [keyStart, hne ' ' (by decide), hne '#' (by decide), hne '%' (by decide), hne '!' (by decide), hne '[' (by decide),
       hne '{' (by decide), hne '|' (by decide), hne '>' (by decide), hne '&' (by decide), hne '*' (by decide),
